@@ -388,6 +388,35 @@ def projIneq (B : Basis CRat d) (hs : Mat Rat (d * d) (d * d))
   let e := embed hs
   hsFromHjk B (calcHMat B e) (calcJMat B e) (clipK lam V) eps atol
 
+/-! ## constructor guards (`EffectiveLindbladian.__init__` → `Gate.__init__`) -/
+
+inductive CtorErr
+  | basisNotOnh0     -- "basis is not a orthonormal Hermitian matrix basis and 0th prop I."
+  | notSquare        -- "HS must be square matrix."
+  | dimNotSquare     -- "dim of HS must be square number."
+  | notReal          -- "HS must be real matrix." (dtype != float64)
+  | dimMismatch      -- "dim of HS must equal dim of CompositeSystem."
+  | notPhysical      -- "the gate is not physically correct."
+deriving Repr, DecidableEq
+
+def CtorErr.toString : CtorErr → String
+  | .basisNotOnh0 => "basisNotOnh0" | .notSquare => "notSquare" | .dimNotSquare => "dimNotSquare"
+  | .notReal => "notReal" | .dimMismatch => "dimMismatch" | .notPhysical => "notPhysical"
+
+/-- the ValueError branches of the constructor, in the order of the code: the basis flag of the composite system
+(`is_orthonormal_hermitian_0thprop_identity`) first; then shape square, `int(sqrt(rows))² = rows`, dtype `float64`,
+`dim = c_sys.dim`; last `is_physicality_required and not is_physical()` — `physical` is the verdict `is_tp and is_cp`
+and is only consulted when physicality is required. -/
+def ctorCheck (basisOnh0 : Bool) (rows cols : Nat) (isFloat64 : Bool) (csysDim : Nat) (required physical : Bool) :
+    Except CtorErr Unit :=
+  if !basisOnh0 then .error .basisNotOnh0
+  else if rows ≠ cols then .error .notSquare
+  else if (Nat.sqrt rows) * (Nat.sqrt rows) ≠ rows then .error .dimNotSquare
+  else if !isFloat64 then .error .notReal
+  else if Nat.sqrt rows ≠ csysDim then .error .dimMismatch
+  else if required && !physical then .error .notPhysical
+  else .ok ()
+
 /-! ## driver -/
 
 def listToVec? {α : Type} (l : List α) (n : Nat) : Option (Vector α n) :=
@@ -545,6 +574,11 @@ def handle (args : List String) : Option String :=
       let hs ← parseRMat hss n n
       let N ← parseNat? N
       some s!"ok {showRMat (expSeries hs N)}"
+  | ["ctor", bok, rows, cols, isf, cd, req, phys] => do
+      let b := fun (x : String) => if x = "1" then some true else if x = "0" then some false else none
+      match ctorCheck (← b bok) (← parseNat? rows) (← parseNat? cols) (← b isf) (← parseNat? cd) (← b req) (← b phys) with
+      | .ok () => some "ok"
+      | .error e => some s!"err {e.toString}"
   | ["act", ds, cb, rho] => do
       let d ← parseNat? ds
       let cb ← parseCMat cb (d * d) (d * d)
